@@ -195,6 +195,56 @@ func reach(fn *ssa.Function, start ssa.Instruction, c cut, visit func(ssa.Instru
 	if len(fn.Blocks) == 0 {
 		return
 	}
+	if start == nil {
+		reachFrom(fn, fn.Blocks[0], 0, nil, c, visit)
+	} else {
+		reachFrom(fn, start.Block(), idxOf(start)+1, nil, c, visit)
+	}
+}
+
+// reachEdge is reach starting at the top of block b, entered from pred (so that the φ values of b are known).
+func reachEdge(fn *ssa.Function, pred, b *ssa.BasicBlock, c cut, visit func(ssa.Instruction) bool) {
+	reachFrom(fn, b, 0, pred, c, visit)
+}
+
+// feasiblePhiEdges: the incoming edges of ph from which `at` can still be reached (constant-φ threading prunes
+// the edges whose value sends control elsewhere).
+func feasiblePhiEdges(fn *ssa.Function, ph *ssa.Phi, at ssa.Instruction) []int {
+	var out []int
+	for k, pred := range ph.Block().Preds {
+		found := false
+		reachEdge(fn, pred, ph.Block(), cut{}, func(in ssa.Instruction) bool {
+			if in == at {
+				found = true
+				return false
+			}
+			return true
+		})
+		if found {
+			out = append(out, k)
+		}
+	}
+	return out
+}
+
+// valuesAt resolves a merge φ to the incoming values that are possible when control is at `at`
+// (a non-φ value is its own single possibility).
+func valuesAt(fn *ssa.Function, v ssa.Value, at ssa.Instruction) []ssa.Value {
+	ph, ok := v.(*ssa.Phi)
+	if !ok || isLoopHeaderPhi(ph) {
+		return []ssa.Value{v}
+	}
+	var out []ssa.Value
+	for _, k := range feasiblePhiEdges(fn, ph, at) {
+		out = append(out, valuesAt(fn, ph.Edges[k], lastInstr(ph.Block().Preds[k]))...)
+	}
+	if len(out) == 0 {
+		return []ssa.Value{v}
+	}
+	return out
+}
+
+func reachFrom(fn *ssa.Function, sb *ssa.BasicBlock, si int, spred *ssa.BasicBlock, c cut, visit func(ssa.Instruction) bool) {
 	type key struct{ b, pred *ssa.BasicBlock }
 	seen := map[key]bool{}
 	type item struct {
@@ -203,11 +253,13 @@ func reach(fn *ssa.Function, start ssa.Instruction, c cut, visit func(ssa.Instru
 		pred *ssa.BasicBlock // the block control came from (nil: unknown)
 	}
 	var work []item
-	if start == nil {
-		work = append(work, item{fn.Blocks[0], 0, nil})
-		seen[key{fn.Blocks[0], nil}] = true
-	} else {
-		work = append(work, item{start.Block(), idxOf(start) + 1, nil})
+	work = append(work, item{sb, si, spred})
+	if si == 0 {
+		k := key{sb, nil}
+		if predSensitive(sb) {
+			k.pred = spred
+		}
+		seen[k] = true
 	}
 	// Recover block is an implicit successor of every panic/exit once defers run; ignore.
 	for len(work) > 0 {
@@ -276,11 +328,13 @@ func branchPhi(b *ssa.BasicBlock) (ph *ssa.Phi, cmp *ssa.Const, neq bool) {
 		return nil, nil, false
 	}
 	v, _ := stripNot(i.Cond)
+	// a variable captured by a closure lives in a slot: `*slot = φ; t = *slot; if t …` tests the φ
+	v = unspill(v, i)
 	if p, ok := v.(*ssa.Phi); ok && p.Block() == b {
 		return p, nil, false
 	}
 	if bo, ok := v.(*ssa.BinOp); ok && (bo.Op == token.EQL || bo.Op == token.NEQ) {
-		for _, pr := range [][2]ssa.Value{{bo.X, bo.Y}, {bo.Y, bo.X}} {
+		for _, pr := range [][2]ssa.Value{{unspill(bo.X, bo), bo.Y}, {unspill(bo.Y, bo), bo.X}} {
 			p, isP := pr[0].(*ssa.Phi)
 			c, isC := pr[1].(*ssa.Const)
 			if isP && isC && p.Block() == b {
@@ -311,14 +365,20 @@ func decidedBranch(b, pred *ssa.BasicBlock) int {
 	}
 	in, ok := ph.Edges[k].(*ssa.Const)
 	if !ok {
-		// a value that is certainly not nil compared with nil
-		if cmp != nil && cmp.Value == nil && certainlyNonNil(ph.Edges[k]) {
-			_, flip := stripNot(lastInstr(b).(*ssa.If).Cond)
-			truth := neq // φ != nil
-			if truth != flip {
-				return 0
+		if cmp != nil && cmp.Value == nil {
+			// a value that is certainly not nil, or one whose nil-ness was just tested on the way here
+			isNil, known := false, certainlyNonNil(ph.Edges[k])
+			if !known {
+				isNil, known = testedNil(ph.Edges[k], pred)
 			}
-			return 1
+			if known {
+				_, flip := stripNot(lastInstr(b).(*ssa.If).Cond)
+				truth := neq != isNil // (φ != nil) for a non-nil value, (φ == nil) for a nil one
+				if truth != flip {
+					return 0
+				}
+				return 1
+			}
 		}
 		return -1
 	}
@@ -345,6 +405,27 @@ func decidedBranch(b, pred *ssa.BasicBlock) int {
 		return 0
 	}
 	return 1
+}
+
+// testedNil: control reaches the end of block `from` only through one outcome of a nil test of v itself
+// (following single-predecessor chains upwards): returns whether v is nil there.
+func testedNil(v ssa.Value, from *ssa.BasicBlock) (isNil, known bool) {
+	b := from
+	for hops := 0; hops < 6; hops++ {
+		if len(b.Preds) != 1 {
+			return false, false
+		}
+		p := b.Preds[0]
+		if i, ok := lastInstr(p).(*ssa.If); ok && p.Succs[0] != p.Succs[1] {
+			c, flip := stripNot(i.Cond)
+			if x, nilWhenTrue, ok := nilCmp(c); ok && x == v {
+				tookTrue := p.Succs[0] == b
+				return (tookTrue != flip) == nilWhenTrue, true
+			}
+		}
+		b = p
+	}
+	return false, false
 }
 
 func certainlyNonNil(v ssa.Value) bool {
@@ -1491,10 +1572,7 @@ func unspill(v ssa.Value, at ssa.Instruction) ssa.Value {
 	var last ssa.Value
 	for _, in := range at.Block().Instrs {
 		if in == at || in == ssa.Instruction(ld) {
-			if in == at {
-				break
-			}
-			continue
+			break // only stores before the load determine what it reads
 		}
 		if st, ok := in.(*ssa.Store); ok && st.Addr == a {
 			last = st.Val
@@ -1700,4 +1778,56 @@ func boolCases(fn *ssa.Function, want bool) [][]guardInfo {
 		expand(res[0], want, guardAtoms(fn, nil, rt), 0)
 	}
 	return out
+}
+
+// isConstFlag: a boolean φ all of whose leaves are constants (a flag such as found/ok produced by merging
+// `…, true` and `…, false` results).  With constant-φ threading its test adds no information of its own.
+func isConstFlag(v ssa.Value) bool {
+	ph, ok := v.(*ssa.Phi)
+	if !ok {
+		return false
+	}
+	leaves, _ := phiLeaves(ph)
+	if len(leaves) == 0 {
+		return false
+	}
+	for _, l := range leaves {
+		c, isC := l.V.(*ssa.Const)
+		if !isC || c.Value == nil || c.Value.Kind() != constant.Bool {
+			return false
+		}
+	}
+	return true
+}
+
+// accessorOf: f is a method whose every return yields one and the same field of its receiver, read directly
+// (`func (r *T) Status() int { return r.status }`); returns that field's name, else "".
+func accessorOf(f *ssa.Function) string {
+	if f == nil || len(f.Blocks) == 0 || f.Signature.Recv() == nil || len(f.Params) != 1 {
+		return ""
+	}
+	name := ""
+	for _, rt := range realReturns(f) {
+		res := retResults(rt)
+		if len(res) != 1 {
+			return ""
+		}
+		p, root := fieldPath(res[0])
+		if root != ssa.Value(f.Params[0]) || p == "" || strings.Contains(p, ".") || (name != "" && name != p) {
+			return ""
+		}
+		name = p
+	}
+	// no stores at all: a pure read
+	pure := true
+	allInstrs(f, func(in ssa.Instruction) {
+		switch in.(type) {
+		case *ssa.Store, *ssa.MapUpdate, *ssa.Call, *ssa.Go, *ssa.Defer, *ssa.Send:
+			pure = false
+		}
+	})
+	if !pure {
+		return ""
+	}
+	return name
 }
